@@ -905,7 +905,7 @@ func TestVerifC27(t *testing.T) {
 	})
 
 	// ---- round trips
-	nrt := r.N(48000, 4000000)
+	nrt := r.N(48000, 1920000)
 	r.Cases("roundtrip", nrt, func(i int, id string, rng *vk.Rand) {
 		tg := c27Targets[i%len(c27Targets)]
 		g := &c27Gen{rng: rng, r: r, nilPtrs: rng.Chance(1, 10)}
@@ -943,7 +943,7 @@ func TestVerifC27(t *testing.T) {
 	}
 
 	// ---- hostile bytes (each case builds its own valid encodings, so it can be replayed alone)
-	nh := r.N(120000, 10000000)
+	nh := r.N(120000, 4800000)
 	r.Cases("hostile", nh, func(i int, id string, rng *vk.Rand) {
 		ti := i % len(c27Targets)
 		tg := c27Targets[ti]
